@@ -204,6 +204,19 @@ def optouts(v, scen, sc):
             args = ["--config", "format_generated_files=false"]
         elif o == "skipped_mod_decl":
             root_text = "#[rustfmt::skip]\nmod  t ;\nmod  sib ;\n" + ugly
+        elif o == "skipped_mod_decl_nonroot":
+            root_text = "mod  a ;\nmod  sib ;\n" + ugly
+            (d / "a.rs").write_text("#[rustfmt::skip]\nmod  t ;\n" + ugly)
+            (d / "a").mkdir()
+            target = d / "a" / "t.rs"
+        elif o == "skipped_mod_decl_inline":
+            root_text = "mod  a ;\nmod  sib ;\n" + ugly
+            (d / "a.rs").write_text("mod  i  {\n#[rustfmt::skip]\nmod  t ;\n}\n" + ugly)
+            (d / "a" / "i").mkdir(parents=True)
+            target = d / "a" / "i" / "t.rs"
+        elif o == "skipped_mod_decl_cfg_if":
+            root_text = ("cfg_if::cfg_if! {\n    if #[cfg(unix)] {\n        #[rustfmt::skip]\n"
+                         "        mod  t ;\n    }\n}\nmod  sib ;\n" + ugly)
         if o in ("inner_skip", "inner_depr", "inner_cfg_skip"):
             # the opted-out file is itself a root of the run, next to an ordinary root
             roots = [target, root]
@@ -219,7 +232,8 @@ def optouts(v, scen, sc):
         key = f"optout:{o}:{mode}"
         unchanged = after[target] == before[target]
         tname = str(target)
-        reported = tname in r.stdout or "t.rs" in [ln.strip().rsplit("/", 1)[-1] for ln in r.stdout.splitlines()]
+        reported = tname in r.stdout or "t.rs" in [ln.strip().rsplit("/", 1)[-1].split(":")[0]
+                                                     for ln in r.stdout.splitlines()]
         if mode == "stdout_diff":
             # the file may be echoed; it must be echoed unchanged
             reported = False
@@ -328,7 +342,7 @@ def run(tier, seed, replay=None):
                    "targets, 32 node kinds x 6 spellings) rendered and formatted; quick = every cell "
                    "(target/node, spelling/cfg, declaring constructs, innermost construct) once plus a "
                    "seed-chosen sample; distinct_nontrivial = distinct (target or node, innermost "
-                   "construct) cells; plus 8 whole-file opt-outs x 4 emit modes through the binary",
+                   "construct) cells; plus 11 whole-file opt-outs x 4 emit modes through the binary",
            "model_states": res.distinct, "scenarios_in_model": total,
            "traces_replayed_into_impl": len(jobs) + n_oo, "agree_with_transcription": agree,
            "unusable": unusable, "optout_runs": n_oo, "samples": v.samples}
